@@ -42,6 +42,14 @@ func genC13(w *World, res *CheckResult) {
 				if tok := setLocationOf(a); tok != "" {
 					o.Status = "discharged"
 					o.Output = "SetLocation(" + tok + ")"
+					// the stamp is the token saved when the construct began (its own first / operator token), not
+					// whatever token is current once its parts have been parsed
+					o2 := &Obligation{Name: fmt.Sprintf("%s/alloc[%s#%d]/located-at-saved-token", shortName(f), kind, cnt[kind]), Kind: "post", Expect: "unsat", Backend: "syntactic", Func: f.String(), Meta: map[string]string{}, Status: "discharged", Output: "SetLocation(" + tok + ")"}
+					if strings.HasPrefix(tok, "p.") {
+						o2.Status = "undecided"
+						o2.Output = "the node is stamped with " + tok + " read at allocation time: the token after the construct, not the construct's own"
+					}
+					res.Obls = append(res.Obls, o2)
 				}
 				res.Obls = append(res.Obls, o)
 			}
@@ -142,6 +150,13 @@ func locArg(c *ssa.Call) string {
 		if fa, ok := x.X.(*ssa.FieldAddr); ok {
 			st := fa.X.Type().Underlying().(*types.Pointer).Elem().Underlying().(*types.Struct)
 			if st.Field(fa.Field).Name() == "Location" {
+				// where does the token live? a field of the parser itself (p.current read at stamping time) or a saved copy
+				if inner, ok := fa.X.(*ssa.FieldAddr); ok {
+					if _, isParam := inner.X.(*ssa.Parameter); isParam {
+						pst := inner.X.Type().Underlying().(*types.Pointer).Elem().Underlying().(*types.Struct)
+						return "p." + pst.Field(inner.Field).Name() + ".Location"
+					}
+				}
 				return "token.Location"
 			}
 		}
